@@ -349,7 +349,10 @@ def request(idnt, req, ctx, desc):
         with fitgen.catch() as box:
             out = IF.compute_features(idnt, which_type=req["which_type"], names=list(base), ret_names=True)
         exc = box["exc"]
-        ctx.check(isinstance(exc, ValueError), "unknown-name-not-rejected", dict(d, unknown=req["unknown"]),
+        # get_feature_names documents ValueError for unknown names; with which_type="all" and explicit names
+        # compute_features deliberately skips that resolution step (F24), there any rejection is accepted
+        accept = (ValueError, AttributeError, TypeError) if (req["which_type"] == "all") else (ValueError,)
+        ctx.check(isinstance(exc, accept), "unknown-name-not-rejected", dict(d, unknown=req["unknown"]),
                   f"names={base}: " + (f"raised {type(exc).__name__}: {exc}" if exc is not None
                                        else f"returned {out!r}") + ", expected ValueError")
     return full
@@ -405,7 +408,9 @@ def check_fitted(case, ctx):
         ctx.note_case(case, nontrivial=False, classes=classes + ["approach_not_descending_skipped"])
         return
     cpc = cp_class(idnt)
-    desc ={"cp": cpc, "shift": mod["shift"], "segment": fit["segment"], "kind": kind}
+    desc = {"cp": cpc, "shift": mod["shift"], "segment": fit["segment"], "kind": kind,
+            # measured, not taken from the generator: a baseline equal to minus the peak also gives a zero maximum
+            "max_force": "zero" if ymax == 0 else ("negative" if ymax < 0 else "positive")}
     before = fitgen.snapshot(idnt)
     full = request(idnt, case["req"], ctx, desc)
     classes += ["cp_" + cpc, "short" if napp < 600 else "long",
